@@ -361,6 +361,13 @@ static void lawCase(verif::Run& run, const Unit& u, int stateKind, int valueSet,
         std::string br = q > I.p.qHigh ? "above" : q < I.p.qLow ? "below" : "inside";
         if (q > I.p.qHigh && 1 + I.p.d * qd < 0) br += "+clamped"; if (q < I.p.qLow && 1 - I.p.d * qd < 0) br += "+clamped";
         run.count("stop-branch:" + br + (I.p.k == 0 ? "(k=0)" : ""));
+        // the same configuration with the coordinate's speed reversed, so that both signs of qdot meet both bounds
+        State sm = s; B.setOneU(sm, I.at.coord, -qd);
+        M.system.realize(sm, Stage::Velocity);
+        checkAgainstLaw(run, M, I, I.p, false, sm, "reversed-speed:", where);
+        std::string br2 = q > I.p.qHigh ? "above" : q < I.p.qLow ? "below" : "inside";
+        if (q > I.p.qHigh && 1 - I.p.d * qd < 0) br2 += "+clamped"; if (q < I.p.qLow && 1 + I.p.d * qd < 0) br2 += "+clamped";
+        run.count("stop-branch(reversed-speed):" + br2 + (I.p.k == 0 ? "(k=0)" : ""));
     }
     // Thermostat: documented auxiliary laws (chain derivatives, temperature, bath energy)
     if (u.elem == fm::EThermostat) {
@@ -585,7 +592,7 @@ int main(int argc, char** argv) {
     const bool th = run.thorough();
     run.rule = "E3: (host, element, parameter set, attachment, state kind, value set) over the whole force alphabet; Gravity x exclusion subset x how-excluded x magnitude x 26 directions x zero height x constructor x up direction; topology-default setters; E2: all histories up to depth d over {state-taking setters (2 values each), realize(stage) x4, energy query, q change, u change, disable, enable} per element with state-resident parameters, law evaluated at the harness's shadow parameters after every history. non-trivial = the law predicts a non-zero force or energy (laws) / the history contains a setter (history)";
     run.assumptions = {"continuous values only from the fixed tables of engine/models.h and engine/forcemodels.h", "body poses / velocities entering the formulas are the library's kinematics (checked by C03-C05); mass properties from the harness's own table (mbref::massRef)", "MobilityLinearSpring/Stop only on coordinates with qdot_i == u_i (documented restriction)", "LinearBushing: where the translational force is applied on each body is fixed by action-reaction at M's origin (the header documents only the generalized forces)", "MobilityLinearStop potential energy 1/2 k x^2 is implied by, not written in, the header", "Thermostat chain-derivative law compared only for the default 3 chains"};
-    for (int h = 0; h < fm::NHOST; ++h) { std::string why; if (!fm::checkHostTables(h, &why)) { run.harnessError(why); return run.finish(); } }
+    for (int h = 0; h < fm::NHOST_ALL; ++h) { std::string why; if (!fm::checkHostTables(h, &why)) { run.harnessError(why); return run.finish(); } }
     std::vector<int> valueSets = th ? std::vector<int>{0, 1, 2} : std::vector<int>{(int)(((run.seed % 3) + 3) % 3)};
     const int depth = th ? 4 : 3;
 
@@ -600,7 +607,7 @@ int main(int argc, char** argv) {
     // ---- laws
     {
         std::vector<Unit> units;
-        for (int h = 0; h < fm::NHOST; ++h) for (int e = 0; e < fm::NELEM; ++e) for (int p = 0; p < fm::numParamSets(e); ++p) for (int a = 0; a < fm::numAttachments(h, e); ++a) units.push_back({h, e, p, a});
+        for (int h = 0; h < (th ? fm::NHOST_ALL : fm::NHOST); ++h) for (int e = 0; e < fm::NELEM; ++e) for (int p = 0; p < fm::numParamSets(e); ++p) for (int a = 0; a < fm::numAttachments(h, e); ++a) units.push_back({h, e, p, a});
         verif::Odometer od; od.dim("state", 4); od.dim("valueset", (int64_t)valueSets.size()); od.dim("unit", (int64_t)units.size());
         run.parallel("laws", od.size(), [&](int64_t idx) {
             auto d = od.digits(idx); const Unit& u = units[d[2]];
@@ -630,7 +637,7 @@ int main(int argc, char** argv) {
     {
         struct DU { int host, elem, attach; }; std::vector<DU> du;
         const int elems[] = {fm::EMobilityLinearSpring, fm::EMobilityLinearDamper, fm::EMobilityConstantForce, fm::EMobilityLinearStop, fm::EMobilityDiscreteForce, fm::ELinearBushing, fm::EUniformGravity, fm::EGravity};
-        for (int h = 0; h < fm::NHOST; ++h) for (int e : elems) for (int a = 0; a < fm::numAttachments(h, e); ++a) du.push_back({h, e, a});
+        for (int h = 0; h < (th ? fm::NHOST_ALL : fm::NHOST); ++h) for (int e : elems) for (int a = 0; a < fm::numAttachments(h, e); ++a) du.push_back({h, e, a});
         verif::Odometer od; od.dim("state", 4); od.dim("valueset", (int64_t)valueSets.size()); od.dim("unit", (int64_t)du.size());
         run.parallel("defaults", od.size(), [&](int64_t idx) {
             auto d = od.digits(idx); const DU& u = du[d[2]];
